@@ -107,7 +107,7 @@ def allowed_paths(cache, keys, sris):
 def run(ctx):
     rng = ctx.rng
     modes = drv.QUICK_MODES if ctx.quick else drv.ALL_MODES
-    nkeys = 10 if ctx.quick else 120
+    nkeys = 30 if ctx.quick else 200
     ctx.rule = ("for each hostile key (path separators, '..', absolute paths, NUL/control characters, 64 KiB, random "
                 "Unicode) and mode, a 26-operation script (writes, reads, lookups, listing, every extraction kind, "
                 "link_to, removals) runs as one traced process with TMPDIR, HOME and cwd pointing into a decoy tree; the "
